@@ -322,6 +322,9 @@ def make_score_fn(ctx, with_aux=False):
         J.fact(it, J.ALL(3, lambda i, p, e: ROWK(rows(i), p, e) == fk(i, p, e), shape=(n, P, xk.shape[-1]),
                          pats=lambda i, p, e: ROWK(rows(i), p, e)))
         out = JArr((n,), 'float', lambda i: SCORE(rows(i)))
+        if getattr(ctx, 'scores_above_neg_inf', False):
+            # hypothesis of the no-placeholder clause: the score function never returns -inf / NaN (which tie with the placeholders)
+            J.fact(it, J.ALL(1, lambda i: z3.And(not_nan(SCORE(rows(i))), SCORE(rows(i)) != X.ninf), shape=(n,), pats=lambda i: SCORE(rows(i))))
         rec = {'rows': rows, 'n': n, 'cont': fc, 'cat': fk, 'out': out, 'P': P, 'mi': mi, 'seed': args[1] if len(args) > 1 else kw.get('seed'),
                'shape_c': xc.shape, 'shape_k': xk.shape, 'aux': with_aux}
         ctx.score_calls.append(rec)
@@ -363,7 +366,7 @@ def make_strategy(ctx):
                                              'update': Builtin('strategy.update', update)})
 
 
-def call_entry(concrete=None, use_fori=True, prior=True, parallel=True, seeded=True, aux=False, track_evaluated=False):
+def call_entry(concrete=None, use_fori=True, prior=True, parallel=True, seeded=True, aux=False, track_evaluated=False, scores_above_neg_inf=False):
     def entry(it):
         run = it.run
         d = dims(run, ['count', 'B', 'P', 'Dc', 'Dk', 'nc', 'nk', 'M', 'Np', 'No'], concrete, {'count': 1, 'B': 1, 'P': 1, 'M': 1})
@@ -375,10 +378,11 @@ def call_entry(concrete=None, use_fori=True, prior=True, parallel=True, seeded=T
         ctx = CallCtx(d)
         run.c19 = ctx
         ctx.track_evaluated = track_evaluated
+        ctx.scores_above_neg_inf = scores_above_neg_inf
         if track_evaluated and not STRONG_MERGE[0]:
             rho = z3.Const('rho!nn', Row)
             run.axiom(z3.ForAll([rho], z3.Not(X.is_nan(SCORE(rho))), patterns=[SCORE(rho)]))      # hypothesis of this clause: no NaN scores
-        if concrete is not None and not track_evaluated:
+        if concrete is not None and not track_evaluated and all(conc(v) is not None for v in d.values()):
             run.jx_unroll_fori = True
         J.fact(it, J.ALL(1, lambda e: SIZES(e) >= 1, shape=(d['Dk'],), pats=lambda e: SIZES(e)))     # every categorical feature has a category
         cls = klass(VB, 'VectorizedOptimizer')
@@ -485,6 +489,8 @@ def call_invariant(it, carry, i, ctx):
         return [Clause('structure', (), lambda: z3.BoolVal(False))]
     rr, rc, rk = parts
     phase = ctx['phase']
+    if ctx.get('upper') is not None:
+        cc.steps = zi(ctx['upper']) - zi(ctx['lower'])
     if phase == 'init':
         ev, g = (lambda t: z3.BoolVal(False)), (lambda t: z3.Const('row_none', Row))
     elif phase in ('head', 'exit'):
@@ -514,6 +520,13 @@ def call_invariant(it, carry, i, ctx):
         Clause('row_is_the_stored_categorical_features', (count, P, Dk),
                lambda t, p, e: z3.If(ev(t), rk.at(t, p, e) == ROWK(g(t), p, e), rk.at(t, p, e) == 0), pats=lambda t, p, e: rk.at(t, p, e)),
     ]
+    if conc(count) == 1 and getattr(cc, 'scores_above_neg_inf', False):
+        # count == 1, scores above -inf: after the first step the single best result is an evaluated candidate, never the placeholder
+        if phase == 'preserve':
+            m = carry[1].merge
+            cl.append(Clause('evaluated_after_the_first_step[count=1]', (), lambda: z3.Implies(z3.And(zi(m['B']) >= 1, m['topk'](z3.IntVal(0), z3.IntVal(0))), ev(0))))
+        else:
+            cl.append(Clause('evaluated_after_the_first_step[count=1]', (), lambda: z3.Implies(zi(i) >= 1, ev(0))))
     if conc(count) == 1 and getattr(cc, 'track_evaluated', False):
         # count == 1, score function without NaN values: the best result dominates EVERY row evaluated so far (ghost set Ev)
         if phase == 'init':
@@ -569,7 +582,7 @@ def call_pyloop_invariant(it, fr, lctx):
     """the same invariant for the `use_fori=False` python loop (engine.LOOPS adapter)."""
     name = _carry_name(lctx.node)
     carry = fr.env[name]
-    st = lctx.__dict__.setdefault('jx', {'lower': 0, 'upper': None, 'key': (VB, '_optimization_one_step')})
+    st = lctx.__dict__.setdefault('jx', {'lower': 0, 'upper': getattr(lctx.iter, 'n', None), 'key': (VB, '_optimization_one_step')})
     st['phase'] = lctx.phase
     if lctx.phase == 'head':
         st['head_carry'] = carry
@@ -589,10 +602,11 @@ def compose_ghost(run, cc, res):
     while getattr(cur, 'merge', None) is not None:
         chain.append(cur.merge)
         cur = cur.merge['old']
-    if not chain:
-        return None, None
     ev = lambda t: z3.BoolVal(False)
     g = lambda t: z3.Const('row_none', Row)
+    if not chain:
+        # no merge happened on this path at all (zero steps): nothing was evaluated -- the ghost of the untouched initial value
+        return (ev, g) if not getattr(run, 'c19_merges', []) else (None, None)
     for m in reversed(chain):
         sc = [s for s in cc.score_calls if s['out'] is m['newr']]
         if not sc:
@@ -669,18 +683,8 @@ def call_sites(path, result_parts):
                 out.append((N + 'prior_rows_are_the_given_prior_features', z3.And(
                     z3.Implies(z3.And(rng(b, nb), rng(p, P), rng(e, Dc), e < zi(nc)), cont_of(pf).at(b, p, e) == pc.at(b * zi(P) + p, e)),
                     z3.Implies(z3.And(rng(b, nb), rng(p, P), rng(e, Dk), e < zi(nk)), cat_of(pf).at(b, p, e) == pk.at(b * zi(P) + p, e)))))
-                # known finding: the prior rewards never reach the best results
-                if rr is not None:
-                    clause = z3.Implies(z3.And(rng(b, nb), b < nvalid, z3.Not(X.is_nan(pr.at(b)))), QE(count, lambda tw: X.ge(rr.at(tw), pr.at(b))))
-                    out.append((N + 'not_worse_than_best_prior', clause))
-                    # residual: outside the finding's witness class (no unpadded prior row with a non-NaN score) the clause holds
-                    b2 = sk(run, 'b2')
-                    no_witness = z3.Not(z3.And(rng(b, nb), b < nvalid, z3.Not(X.is_nan(pr.at(b)))))
-                    out.append((N + 'not_worse_than_best_prior.residual', z3.Implies(no_witness, clause)))
         elif pf is not None or pr is not None:
             out.append((N + 'prior_features_reach_the_strategy', z3.BoolVal(False)))
-        elif rr is not None:
-            out.append((N + 'not_worse_than_best_prior.residual', z3.BoolVal(True)))      # no prior point was given
     # randomness: every key handed out is derived by split/fold_in from the seed argument (or PRNGKey(0) when none is given, or
     # the loop-carried key, itself covered by the invariant `structure` clause), and no key is handed to two consumers
     seed = cc.kw.get('seed')
@@ -733,6 +737,17 @@ def call_post(path):
                                       z3.Implies(z3.And(rng(p, P), rng(e, Dk)), rk.at(tt, p, e) == ROWK(g(tt), p, e)))
         out.append((N + 'reward_is_score_of_candidate.residual', z3.Implies(z3.And(rng(t, count), rr.at(t) != X.ninf), evaluated(t))))
         out.append((N + 'reward_is_score_of_candidate', z3.Implies(rng(t, count), z3.And(ev(t), evaluated(t)))))
+    # the loop runs ceil(max_evaluations / batch) steps: the whole evaluation budget is used, and not more than one batch beyond it
+    steps = getattr(cc, 'steps', None)
+    if steps is None:
+        chain, cur = 0, res
+        while getattr(cur, 'merge', None) is not None:
+            chain, cur = chain + 1, cur.merge['old']
+        steps = z3.IntVal(chain)
+    Mz, Bz_ = zi(d['M']), zi(B)
+    out.append((N + 'evaluation_budget_is_used', z3.And(steps * Bz_ >= Mz, (steps - 1) * Bz_ < Mz)))
+    if getattr(cc, 'scores_above_neg_inf', False) and conc(count) == 1 and ev is not None:
+        out.append((N + 'no_placeholder_within_budget[count=1]', z3.And(ev(0), rr.at(0) == SCORE(g(0)))))
     if getattr(cc, 'track_evaluated', False) and getattr(cc, 'Ev', None) is not None:
         rho = run.fresh('sk_row', Row)
         if STRONG_MERGE[0]:
@@ -974,9 +989,9 @@ def eagle_state(it, d, tag='state'):
     pool, P, Dc, Dk = d['pool'], d['P'], d['Dc'], d['Dk']
     st = Obj(klass(ES, 'VectorizedEagleStrategyState'), {
         'iterations': run.fresh(tag + '_iterations', z3.IntSort()),
-        # value classes (ghost, justified by the invariant clauses of eagle_inv): features in [0, 1], perturbations finite;
+        # value classes (ghost, justified by the invariant clauses of eagle_inv): features finite, perturbations finite;
         # the pool rewards are arbitrary (a NaN score received while the pool is being initialised is stored as is)
-        'features': CC(J.fresh_array(it, tag + '_c', (pool, P, Dc), 'float', kinds_=J.NONNEG), J.fresh_array(it, tag + '_k', (pool, P, Dk), 'int', kinds_=J.NONNEG)),
+        'features': CC(J.fresh_array(it, tag + '_c', (pool, P, Dc), 'float', kinds_=J.FINITE), J.fresh_array(it, tag + '_k', (pool, P, Dk), 'int', kinds_=J.NONNEG)),
         'rewards': J.fresh_array(it, tag + '_r', (pool,), 'float', kinds_=J.TOP),
         'best_reward': run.fresh(tag + '_best', X.XReal),
         'perturbations': J.fresh_array(it, tag + '_pert', (pool,), 'float', kinds_=J.FINITE)})
@@ -984,7 +999,8 @@ def eagle_state(it, d, tag='state'):
 
 
 def eagle_inv(st, d, sizes):
-    """state invariant: the pool holds in-bounds features, finite perturbations, a non-negative iteration counter."""
+    """state invariant: the pool holds finite continuous and valid categorical features, finite perturbations, a non-negative
+    iteration counter."""
     pool, P, Dc, Dk = d['pool'], d['P'], d['Dc'], d['Dk']
     f = st.attrs['features']
     c, k, pert = cont_of(f), cat_of(f), st.attrs['perturbations']
@@ -995,7 +1011,8 @@ def eagle_inv(st, d, sizes):
     return [
         Clause('state_shapes', (), lambda: z3.And(shape_eq(c.shape, (pool, P, Dc)), shape_eq(k.shape, (pool, P, Dk)), shape_eq(pert.shape, (pool,)),
                                                  shape_eq(st.attrs['rewards'].shape, (pool,)), zi(itn) >= 0)),
-        Clause('pool_continuous_in_unit_cube', (pool, P, Dc), lambda i, p, e: unit(c.at(i, p, e)), pats=lambda i, p, e: c.at(i, p, e)),
+        # (the pool may hold prior points from OUTSIDE the unit cube: only the projection in `suggest` brings them back)
+        Clause('pool_continuous_finite', (pool, P, Dc), lambda i, p, e: X.is_fin(c.at(i, p, e)), pats=lambda i, p, e: c.at(i, p, e)),
         Clause('pool_categorical_valid', (pool, P, Dk), lambda i, p, e: catv(k.at(i, p, e), sizes.at(e)), pats=lambda i, p, e: k.at(i, p, e)),
         Clause('perturbations_finite', (pool,), lambda i: X.is_fin(pert.at(i)), pats=lambda i: pert.at(i)),
     ]
@@ -1074,12 +1091,16 @@ def suggest_classes(path):
         return None
 
 
-def inb_features(f, d, sizes, n, guard=None):
-    """[Clause]: the n rows of the feature pair f are in bounds (optionally only the rows r with guard(r))."""
+def inb_features(f, d, sizes, n, guard=None, cont='unit', cat=True):
+    """[Clause]: the n rows of the feature pair f (optionally only the rows r with guard(r)) have continuous features in the unit
+    cube (cont='unit') / finite (cont='finite') and, if cat, valid categorical features."""
     c, k = cont_of(f), cat_of(f)
     g = guard or (lambda r: z3.BoolVal(True))
-    return [Clause('continuous_in_unit_cube', (n, d['P'], d['Dc']), lambda r, p, e: z3.Implies(g(r), unit(c.at(r, p, e))), pats=lambda r, p, e: c.at(r, p, e)),
-            Clause('categorical_valid', (n, d['P'], d['Dk']), lambda r, p, e: z3.Implies(g(r), catv(k.at(r, p, e), sizes.at(e))), pats=lambda r, p, e: k.at(r, p, e))]
+    pred, nm = (unit, 'continuous_in_unit_cube') if cont == 'unit' else (X.is_fin, 'continuous_finite')
+    out = [Clause(nm, (n, d['P'], d['Dc']), lambda r, p, e: z3.Implies(g(r), pred(c.at(r, p, e))), pats=lambda r, p, e: c.at(r, p, e))]
+    if cat:
+        out.append(Clause('categorical_valid', (n, d['P'], d['Dk']), lambda r, p, e: z3.Implies(g(r), catv(k.at(r, p, e), sizes.at(e))), pats=lambda r, p, e: k.at(r, p, e)))
+    return out
 
 
 def update_entry(concrete=None, norm='MEAN', pert='ADDITIVE'):
@@ -1116,7 +1137,9 @@ def state_post(prefix):
     return post
 
 
-def init_entry(concrete=None, prior=False):
+def init_entry(concrete=None, prior=False, cat_valid=True):
+    """prior rows: ARBITRARY finite continuous features (also outside the unit cube); categorical features valid category
+    indices when cat_valid (the residual regime of the out-of-vocabulary finding), arbitrary integers otherwise."""
     def entry(it):
         run = it.run
         d = eagle_dims(run, concrete)
@@ -1129,10 +1152,10 @@ def init_entry(concrete=None, prior=False):
         if prior:
             pf = CC(J.fresh_array(it, 'prior_c', (d['Nb'], d['P'], d['Dc']), 'float'), J.fresh_array(it, 'prior_k', (d['Nb'], d['P'], d['Dk']), 'int'))
             pr = J.fresh_array(it, 'prior_r', (d['Nb'],), 'float')
-            # precondition (established by VectorizedOptimizer.__call__, section B): padded prior rows carry the reward -inf;
-            # every other prior row is a valid point of the (scaled) search space
-            for cl in inb_features(pf, d, sizes, d['Nb'], guard=lambda r: pr.at(r) != X.ninf):
+            # precondition (established by VectorizedOptimizer.__call__, section B): padded prior rows carry the reward -inf
+            for cl in inb_features(pf, d, sizes, d['Nb'], guard=lambda r: pr.at(r) != X.ninf, cont='finite', cat=cat_valid):
                 cl.assume(it)
+            c.cat_valid = cat_valid
             kw['prior_features'], kw['prior_rewards'] = pf, pr
             c.prior = (pf, pr)
         return it.invoke(method(ES, EAGLE + '.init_state'), [self, z3.Const('seed', J.Key)], kw)
@@ -1154,8 +1177,8 @@ def populate_invariant(it, carry, i, ctx):
         return [Clause('structure', (), lambda: z3.BoolVal(False))]
     m = r0.shape[0]
     cl = [Clause('shapes', (), lambda: z3.And(shape_eq(fc.shape, cont_of(f0).shape), shape_eq(fk.shape, cat_of(f0).shape), shape_eq(r.shape, r0.shape)))]
-    for x in inb_features(f, d, sizes, m, guard=lambda row: r0.at(row) != X.ninf):
-        x.name = 'chosen_rows_with_finite_original_reward.' + x.name
+    for x in inb_features(f, d, sizes, m, guard=lambda row: r0.at(row) != X.ninf, cont='finite', cat=getattr(c, 'cat_valid', True)):
+        x.name = 'chosen_rows_with_original_reward_above_neg_inf.' + x.name
         cl.append(x)
     return cl
 
@@ -1339,6 +1362,56 @@ def random_post(path):
     return out
 
 
+def random_init_entry(prior):
+    """RandomVectorizedStrategy.init_state(seed, prior_features=..., prior_rewards=...): do the prior points reach the state?"""
+    def entry(it):
+        run = it.run
+        d, sizes = layout_dims(it, 1, None)
+        d.update(dims(run, ['Nb'], None))
+        conv, Dc, Dk = make_converter(it, d['nc'], sizes, d['padc'], 0)
+        strat = it.call(klass(RV, 'RandomVectorizedStrategy'), [], {'converter': conv, 'suggestion_batch_size': d['B']})
+        c = EagleCtx()
+        c.d, c.prior = d, None
+        run.c19 = c
+        kw = {'n_parallel': d['P']}
+        if prior:
+            pf = CC(J.fresh_array(it, 'prior_c', (d['Nb'], d['P'], Dc), 'float'), J.fresh_array(it, 'prior_k', (d['Nb'], d['P'], Dk), 'int'))
+            pr = J.fresh_array(it, 'prior_r', (d['Nb'],), 'float')
+            kw['prior_features'], kw['prior_rewards'] = pf, pr
+            c.prior = (pf, pr)
+        return it.invoke(method(RV, 'RandomVectorizedStrategy.init_state'), [strat, z3.Const('seed', J.Key)], kw)
+    return entry
+
+
+def _mentions(v, arrays, depth=0):
+    """does the value (a pytree / object graph) contain one of the given arrays?"""
+    if depth > 6:
+        return False
+    if any(v is a for a in arrays):
+        return True
+    if isinstance(v, JArr):
+        return any(_mentions(x, arrays, depth + 1) for x in (v._src or []) if isinstance(x, JArr))
+    if isinstance(v, (tuple, list)):
+        return any(_mentions(x, arrays, depth + 1) for x in v)
+    if isinstance(v, Obj):
+        return any(_mentions(x, arrays, depth + 1) for x in v.attrs.values())
+    return False
+
+
+def random_init_post(path):
+    N = 'C19.random.init_state.'
+    if path.kind == 'end':
+        return []
+    if path.kind != 'return':
+        return [(N + 'returns', z3.BoolVal(False))]
+    c = path.run.c19
+    if c.prior is None:
+        return [(N + 'uses_prior_features.residual', z3.BoolVal(True))]        # no prior point given: nothing to evaluate
+    pf, pr = c.prior
+    used = _mentions(path.value, [cont_of(pf), cat_of(pf), pr])
+    return [(N + 'uses_prior_features', z3.BoolVal(bool(used)))]
+
+
 def factory_entry(kind, ncat, padk, concrete=None):
     """VectorizedOptimizerFactory(strategy_factory=<eagle | random>)(converter): the optimizer / strategy configuration."""
     def entry(it):
@@ -1464,6 +1537,13 @@ CLAUSE_OF = {     # obligation-name fragment -> clause name checked by the nativ
 
 def battery_replay(name, rec):
     """directed native search: the end-to-end battery on the real optimizer; reproduced iff the clause this obligation feeds fails."""
+    finish_witnesses()
+    for frag, sn in (('continuous_in_unit_cube', 'standin_in_cube_any_prior'), ('pool_continuous', 'standin_in_cube_any_prior'),
+                     ('evaluation_budget', 'standin_no_placeholder'), ('no_placeholder', 'standin_no_placeholder'),
+                     ('evaluated_after', 'standin_no_placeholder'), ('reward_is_score_of_candidate', 'standin_no_placeholder')):
+        r = STANDIN_RES.get(sn)
+        if frag in name and isinstance(r, dict) and r.get('held') is False:
+            return {'driver': 'replay/c19_replay.py witness %s' % sn, 'failing_input': r.get('failing_input'), 'bound': r.get('bound')}, True
     if 'res' not in BATTERY:
         BATTERY['res'] = run_native(REPLAY, ['battery'] + (['quick'] if BATTERY.get('tier') == 'quick' else []), timeout=7200)
     res = BATTERY['res']
@@ -1594,23 +1674,49 @@ def finish_conformance(chk, proc, tier):
 
 
 # ------------------------------------------------------------------------------------------ main
-F_PRIOR = ('prior features are scored but their rewards never reach the best results (vectorized_base.py: "TODO: Consider initializing with prior '
-           'features/rewards"): the optimizer can return a result worse than the best prior point it was seeded with (always with the random '
-           'strategy, which ignores priors; with Eagle when max_evaluations < pool size)')
-F_PLACEHOLDER = ('the best-results buffer starts as `count` all-zero candidates with reward -inf that were never evaluated; they are returned when '
-                 'count exceeds the number of evaluated candidates (or ties with genuine -inf scores): the reported reward -inf is not the score '
-                 'of the returned all-zero candidate')
+F_PRIOR = ('RandomVectorizedStrategy.init_state ignores prior_features / prior_rewards, and VectorizedOptimizer.__call__ does not merge the scored '
+           'priors into its best results ("TODO: Consider initializing with prior features/rewards"): with the random strategy the optimizer returns a '
+           'result worse than the best prior point it was seeded with')
+F_OOV = ('a prior row whose categorical feature is the out-of-vocabulary index (the converter\'s encoding of an unknown / missing category, == number of '
+         'categories) enters the Eagle pool and is suggested unchanged during the initialisation rounds (DefaultProjection only clips the continuous '
+         'features): the optimizer returns a candidate whose categorical feature is not a valid category index')
+F_PLACEHOLDER = ('the best-results buffer starts as `count` all-zero candidates with reward -inf that were never evaluated; they are returned when the '
+                 'caller asks for more results than it allows evaluations (count > max_evaluations) or when the score function returns -inf / NaN '
+                 '(which tie with them): the reported reward -inf is not the score of the returned all-zero candidate')
 F_RANDNORM = ('MutateNormalizationType.RANDOM divides the random pull / push weight matrix by its row sum, which is 0 for a firefly without a '
               'positive pull (e.g. all pool rewards non-finite): 0/0 = NaN reaches the continuous features, jnp.clip keeps NaN, and NaN '
               'candidates are returned')
 
 FINDINGS = {
     'C19._update_best_results.topk': F_NAN, 'C19._update_best_results.best_never_decreases': F_NAN,
-    'C19.__call__.not_worse_than_best_prior': F_PRIOR, 'C19.__call__.reward_is_score_of_candidate': F_PLACEHOLDER,
+    'C19.random.init_state.uses_prior_features': F_PRIOR, 'C19.__call__.reward_is_score_of_candidate': F_PLACEHOLDER,
+    'C19.eagle.init_state.pool_categorical_valid': F_OOV,
     'C19.random.suggest.result_shapes': F_RANDPAD, 'C19.random.declares_real_feature_counts': F_RANDPAD,
     'C19.factory[random].optimizer_masks_exactly_the_padding': F_RANDPAD,
     'C19.eagle.suggest.continuous_not_nan[RANDOM]': F_RANDNORM,
 }
+
+
+INIT_FULL = []
+STANDINS = {
+    'standin_in_cube_any_prior': ('C19.eagle.suggest.continuous_in_unit_cube[native stand-in: priors outside the cube]', EAGLE + '.suggest'),
+    'standin_no_placeholder': ('C19.__call__.no_placeholder_within_budget[native stand-in: count > 1]', CALL),
+    'standin_eagle_priors': ('C19.eagle.not_worse_than_best_prior[native stand-in]', EAGLE + '.init_state'),
+}
+STANDIN_RES = {}
+
+
+def standins(chk):
+    """bounded native stand-ins for the clauses that are not proved deductively in full generality (never counted as proved)."""
+    for name, (obl, fn) in STANDINS.items():
+        r = STANDIN_RES.get(name)
+        if not isinstance(r, dict) or 'held' not in r:
+            chk.bounded_standin(obl, 'native run', 'not run: %s' % (r,))
+            continue
+        chk.bounded_standin(obl, r.get('bound'), 'held' if r['held'] else 'FAILED', detail=r.get('failing_input'))
+        if not r['held']:
+            chk.obligation(obl, fn, 'native stand-in', report.VIOLATED, 0.0, detail={'bound': r.get('bound')}, model=json.dumps(r.get('failing_input'))[:3000],
+                           replay={'driver': 'replay/c19_replay.py witness %s' % name, 'failing_input': r.get('failing_input')}, reproduced=True)
 
 
 WITNESS = {}         # witness name -> True (reproduces on the current tree) | False | None (could not be run)
@@ -1624,16 +1730,26 @@ def witness_name(f):
 
 
 def start_witnesses(chk):
-    names = sorted({witness_name(f) for f in chk.findings if f.get('status', 'open') == 'open' and witness_name(f)})
-    if not names:
-        return None, names
+    names = sorted({witness_name(f) for f in chk.findings if f.get('status', 'open') == 'open' and witness_name(f)}) + sorted(STANDINS)
     env = dict(os.environ)
     env['VERIF_REPO'] = source.REPO
     return subprocess.Popen([VENV_PY, REPLAY, 'witness'] + names, stdout=subprocess.PIPE, stderr=subprocess.PIPE, text=True, env=env, cwd=VERIF), names
 
 
-def finish_witnesses(proc, names):
+WPROC = {}
+
+
+def finish_witnesses(proc=None, names=None):
+    """join the native witness / stand-in subprocess (idempotent; also called by the first replay that needs its results)."""
+    if proc is None and names is None:
+        if WPROC.get('done') or 'proc' not in WPROC:
+            return
+        proc, names = WPROC['proc'], WPROC['names']
+    if WPROC.get('done'):
+        return
+    WPROC['done'] = True
     WITNESS.clear()
+    STANDIN_RES.clear()
     UNVERIFIED.clear()
     _NOTED.clear()
     for n in names:
@@ -1655,6 +1771,8 @@ def finish_witnesses(proc, names):
                 r = res.get(n)
                 if isinstance(r, dict) and isinstance(r.get('reproduced'), bool):
                     WITNESS[n] = r['reproduced']
+                if n in STANDINS:
+                    STANDIN_RES[n] = r
             break
 
 
@@ -1783,6 +1901,8 @@ def main(tier):
                                  'value-class abstract interpretation with z3-derived transformers; determinism by read-frame analysis; open '
                                  'obligations are decided on concrete shapes (quantifier-free, loops unrolled) and replayed natively')
     wproc, wnames = start_witnesses(chk)
+    WPROC.clear()
+    WPROC.update({'proc': wproc, 'names': wnames})
     proc = start_conformance(tier)
     for t in J.TRUST:
         chk.trust(t)
@@ -1791,8 +1911,9 @@ def main(tier):
     chk.assume(A_MATH)
     chk.assume(A_SCORE)
     chk.assume(A_CONV)
-    chk.assume('prior features handed to the optimizer: every unpadded prior row is a valid point of the scaled search space (continuous in [0, 1], '
-               'categorical a category index); padded rows / positions may hold anything (NaN, -1)')
+    chk.assume('prior features handed to the optimizer: the continuous features of unpadded prior rows are arbitrary FINITE reals (also outside the unit '
+               'cube; a trial that lacks a parameter value gives NaN, which is outside the claim); their categorical features are arbitrary (an index '
+               'outside the categories is the recorded out-of-vocabulary finding); padded rows / positions may hold anything (NaN, -1)')
     chk.assume('the Eagle configuration knobs are arbitrary finite numbers; prob_same_category_without_perturbation in (0, 1); the search space '
                'has at least one feature; pool_size >= batch_size >= 1')
     for mod, qual in ((VB, UBR), (VB, CALL), (VB, '_optimizer_to_model_input'), (VB, 'optimizer_to_model_input_single_array'),
@@ -1830,13 +1951,23 @@ def main(tier):
     pv.observer = None
     pv.run(EAGLE + '.update', [('update[%s,%s]' % m, update_entry(None, *m)) for m in modes[:1]], state_post('C19.eagle.update.'),
            twins=[('concrete', update_entry(ctw))], replay=battery_replay)
-    pv.run(EAGLE + '.init_state', [('no prior', init_entry()), ('prior', init_entry(prior=True))], state_post('C19.eagle.init_state.'),
-           twins=[('no prior concrete', init_entry(ctw)), ('prior concrete', init_entry(ctw, prior=True))], replay=battery_replay)
+    # priors: arbitrary finite continuous features; categorical priors valid = residual regime of the out-of-vocabulary finding
+    res_name = lambda n: n + '.residual' if n.endswith('pool_categorical_valid') else n
+    pv.run(EAGLE + '.init_state', [('no prior', init_entry()), ('prior, categorical priors valid', init_entry(prior=True))], state_post('C19.eagle.init_state.'),
+           twins=[('no prior concrete', init_entry(ctw)), ('prior concrete', init_entry(ctw, prior=True))], replay=battery_replay, rename=res_name)
+    INIT_FULL.append(lambda: pv.run(EAGLE + '.init_state', [('no prior', init_entry()), ('prior, arbitrary categorical priors', init_entry(prior=True, cat_valid=False))],
+                                    state_post('C19.eagle.init_state.'), twins=[('prior concrete, arbitrary categorical priors', init_entry(ctw, prior=True, cat_valid=False))],
+                                    findings=open_findings(chk, ['C19.eagle.init_state.pool_categorical_valid']), replay=battery_replay,
+                                    only=lambda n: n.endswith('init_state.pool_categorical_valid')))
 
     # ---- E. determinism
     frame_obligations(chk)
     # ---- recorded findings count only if listed open AND reproduced natively on the current tree
     finish_witnesses(wproc, wnames)
+    standins(chk)
+    for thunk in INIT_FULL:
+        thunk()
+    del INIT_FULL[:]
     # ---- A. _update_best_results (real code, full functional contract)
     known_a = open_findings(chk, ['C19._update_best_results.topk', 'C19._update_best_results.best_never_decreases'])
     NAN_FINDING_ACTIVE[0] = bool(known_a)
@@ -1856,14 +1987,21 @@ def main(tier):
         entries = [('fori=%d,prior=%d,n_parallel=%d,seed=%d,aux=%d' % tuple(map(int, c)), call_entry(None, *c)) for c in combos]
         tw = [('fori=1,prior=1,n_parallel=2,count=2,batch=1,iterations=2', call_entry({'count': 2, 'B': 1, 'P': 2, 'Dc': 2, 'Dk': 1, 'nc': 1, 'nk': 1, 'M': 2, 'Np': 4, 'No': 2},
                                                                                  True, True, True, True, False)),
-              ('fori=0,prior=0,aux=1,count=1,batch=2,iterations=1', call_entry({'count': 1, 'B': 2, 'P': 1, 'Dc': 1, 'Dk': 2, 'nc': 1, 'nk': 1, 'M': 2, 'Np': 0, 'No': 0},
-                                                                               False, False, False, False, True))]
-        known_b = open_findings(chk, ['C19.__call__.not_worse_than_best_prior', 'C19.__call__.reward_is_score_of_candidate'])
+              ('fori=0,prior=0,aux=1,count=1,batch=2,max_evaluations=3', call_entry({'count': 1, 'B': 2, 'P': 1, 'Dc': 1, 'Dk': 2, 'nc': 1, 'nk': 1, 'M': 3, 'Np': 0, 'No': 0},
+                                                                                   False, False, False, False, True)),
+              ('fori=1,prior=0,count=1,batch=2,max_evaluations=1', call_entry({'count': 1, 'B': 2, 'P': 1, 'Dc': 1, 'Dk': 1, 'nc': 1, 'nk': 1, 'M': 1, 'Np': 0, 'No': 0},
+                                                                             True, False, False, True, False))]
+        known_b = open_findings(chk, ['C19.__call__.reward_is_score_of_candidate'])
         ren = lambda n: n.replace('VectorizedOptimizer.__call__.loop1.', 'C19.__call__.loop.pyloop.')
         pv.run(CALL, entries, call_post, twins=tw, findings=known_b, replay=battery_replay, rename=ren)
         # count == 1 (the default), score functions without NaN values: the result dominates every row evaluated in any iteration
         ent1 = [('count=1,fori=%d,track evaluated rows' % f, call_entry({'count': 1}, bool(f), False, True, True, False, track_evaluated=True)) for f in (1, 0)]
         pv.run(CALL, ent1, call_post, findings={}, replay=battery_replay, rename=ren, only=lambda n: 'count=1' in n)
+        # count == 1 <= max_evaluations, scores above -inf: the result is an evaluated candidate (residual of the placeholder finding)
+        small = {'count': 1, 'B': 2, 'P': 1, 'Dc': 1, 'Dk': 1, 'nc': 1, 'nk': 1, 'M': 1, 'Np': 0, 'No': 0}
+        ent2 = [('count=1,fori=%d,scores above -inf' % f, call_entry({'count': 1}, bool(f), False, True, True, False, scores_above_neg_inf=True)) for f in (1, 0)]
+        tw2 = [('count=1,fori=%d,batch=2,max_evaluations=1,scores above -inf' % f, call_entry(small, bool(f), False, False, True, False, scores_above_neg_inf=True)) for f in (1, 0)]
+        pv.run(CALL, ent2, call_post, twins=tw2, findings={}, replay=battery_replay, rename=ren, only=lambda n: 'count=1' in n)
     finally:
         E.MODELS.pop(UBR_KEY, None)
 
@@ -1874,6 +2012,8 @@ def main(tier):
     pv.run('RandomVectorizedStrategy.suggest', [('ncat=%d,padded_cat=%d' % l, random_entry(*l)) for l in layouts], random_post,
            twins=[('ncat=%d,padded_cat=%d concrete' % l, random_entry(l[0], l[1], {'nc': 1, 'padc': 1, 'B': 2, 'P': 1, 'M': 2, 'sizes': [2, 3, 2]})) for l in layouts[:4]],
            findings=known_d, replay=battery_replay)
+    pv.run('RandomVectorizedStrategy.init_state', [('prior', random_init_entry(True)), ('no prior', random_init_entry(False))], random_init_post,
+           findings=open_findings(chk, ['C19.random.init_state.uses_prior_features']), replay=battery_replay)
     factories(chk, pv, quick)
 
     chk.note('The symbolic results are functions of the PRNG key: jax.random.split/uniform/laplace are modelled as functions of their key, and '
